@@ -257,7 +257,18 @@ def box_case(rng, w, h, style, ox, oy, with_dash=None):
     interior = {}
     texts = []
     mode = rng.random()
-    if h >= 1 and w >= 4 and mode < 0.5:
+    if h >= 5 and w >= 12 and mode > 0.7:
+        # a frame around many separate words (every word its own group: two blanks apart, every other row)
+        for y in range(1, h - 1, 2):
+            row = ' '
+            x = 2
+            while x + 2 <= w - 1:
+                word = rng.choice(['ab', 'k9', 'qz', 'hi'])
+                row = row.ljust(x) + word
+                texts.append((ox + 1 + x + (1 if name == 'biground' else 0), oy + 1 + y, word))
+                x += 4
+            interior[y] = row
+    elif h >= 1 and w >= 4 and mode < 0.5:
         nrows = 1 if mode < 0.3 else rng.randint(1, min(h, 3))
         for y in rng.sample(range(h), nrows):
             lab = rng.choice(LABELS)
